@@ -151,6 +151,15 @@ def gen_history(rng, length, vkind, names=None, cond_kinds=None, act_kinds=None,
             h.append(("move", n, "down"))
         if rng.random() < bytes_names:
             h[-1] = bytes_twin(h[-1])
+        if rng.random() < 0.08:
+            # an addfilter the builder refuses (a tag the action does not take): it raises,
+            # and nothing about the set - its require line included - may have changed
+            d = filtgen.Definition()
+            d.conditions = [("Subject", ":is", "x")]
+            d.actions = [rng.choice([("redirect", ":create", "a@example.org"),
+                                     ("fileinto", ":seconds", "F")])]
+            d.kinds = ["refused-by-the-builder"]
+            h.append(("add", rng.choice(names), d))
     return h
 
 
